@@ -7,8 +7,16 @@
 //   mark  : cancelled delay_us after the program called the host builtin mark()
 // The program may call the host builtin tick(), which counts script activity.
 //
-// stdout: id \t returned latency_us errclass value ticks_at_return ticks_settled ticks_later g_before g_after settled
+// stdout: id \t returned latency_us errclass value ticks_at_return ticks_settled ticks_later g_before g_after settled stuck
 //   errclass: nil | ctx (errors.Is(err, ctx.Err())) | ctxtext (same text, identity lost) | waiterr | other(...)
+//   stuck: "-" or, when the call did not return / the goroutines did not settle, the goroutines that run risor code and are
+//          PARKED in an operation no context can interrupt (a bare channel send / receive, a plain sleep, a lock), seen in
+//          the same state in two goroutine dumps taken apart: "<goroutine id>:<state>:<innermost risor frame>;..." - a fact
+//          about the state of the process, not about elapsed time (a goroutine that merely has not been scheduled yet is
+//          "runnable", one that waits for the context is in "select").
+//
+// {"reps": N} repeats the evaluation up to N times (statistical families: whether contenders collide depends on the schedule);
+// the first repetition that is not clean is reported with "rep=<k>" appended to the error class.
 package main
 
 import (
@@ -18,7 +26,9 @@ import (
 	"errors"
 	"fmt"
 	"os"
+	"regexp"
 	"runtime"
+	"sort"
 	"strings"
 	"sync/atomic"
 	"time"
@@ -33,6 +43,79 @@ type tcase struct {
 	Instant string `json:"instant"`
 	Mode    string `json:"mode"` // "" / "cancel": explicit cancel; "deadline": the context ends with DeadlineExceeded
 	DelayUs int    `json:"delay_us"`
+	Reps    int    `json:"reps"`
+}
+
+// goroutines already reported as parked by an earlier case of this process (they stay parked)
+var reported = map[string]bool{}
+
+var goHeader = regexp.MustCompile(`^goroutine (\d+) \[([^\],]+)`)
+
+// parked lists the goroutines that have a risor frame on their stack and are blocked in a bare channel operation or a plain
+// sleep: goroutine id -> "state:innermost risor frame"
+func parked() map[string]string {
+	buf := make([]byte, 1<<20)
+	for {
+		n := runtime.Stack(buf, true)
+		if n < len(buf) {
+			buf = buf[:n]
+			break
+		}
+		buf = make([]byte, 2*len(buf))
+	}
+	out := map[string]string{}
+	for _, g := range strings.Split(string(buf), "\n\n") {
+		lines := strings.Split(g, "\n")
+		m := goHeader.FindStringSubmatch(lines[0])
+		if m == nil {
+			continue
+		}
+		state := m[2]
+		// only waits that nothing but another goroutine's action can end and that hold no lock hand-over: a bare channel
+		// operation or a plain sleep.  (runnable / running / syscall = waiting for the CPU; select = can see the context;
+		// lock waits are transient on a loaded machine and are left to the wall-clock path, which re-runs the case.)
+		switch {
+		case strings.HasPrefix(state, "chan send"), strings.HasPrefix(state, "chan receive"), state == "sleep", state == "select (no cases)":
+		default:
+			continue
+		}
+		frame := ""
+		for _, l := range lines[1:] {
+			if strings.HasPrefix(l, "github.com/risor-io/risor/") && !strings.HasPrefix(l, "\t") {
+				frame = strings.TrimPrefix(l, "github.com/risor-io/risor/")
+				if i := strings.LastIndex(frame, "("); i > 0 {
+					frame = frame[:i]
+				}
+				break
+			}
+		}
+		if frame == "" {
+			continue
+		}
+		out[m[1]] = state + ":" + frame
+	}
+	return out
+}
+
+// stuckEvidence: goroutines parked in the same uninterruptible state in two dumps taken 250 ms apart
+func stuckEvidence() string {
+	a := parked()
+	if len(a) == 0 {
+		return ""
+	}
+	time.Sleep(250 * time.Millisecond)
+	b := parked()
+	var ev []string
+	for id, st := range a {
+		if b[id] == st && !reported[id] {
+			ev = append(ev, id+":"+strings.ReplaceAll(st, " ", "_"))
+		}
+	}
+	for _, e := range ev {
+		reported[strings.SplitN(e, ":", 2)[0]] = true
+	}
+	sort.Strings(ev)
+	return strings.Join(ev, ";")
 }
 
 var hangs int
@@ -69,6 +152,26 @@ func (d deadlineCtx) Err() error {
 }
 
 func runCase(c *tcase, out *bufio.Writer) {
+	reps := c.Reps
+	if reps < 1 {
+		reps = 1
+	}
+	for k := 0; k < reps; k++ {
+		line, clean := runOnce(c)
+		if !clean || k == reps-1 {
+			if reps > 1 {
+				f := strings.Split(line, "\t")
+				f[3] += fmt.Sprintf(" rep=%d/%d", k, reps)
+				line = strings.Join(f, "\t")
+			}
+			fmt.Fprintln(out, line)
+			return
+		}
+	}
+}
+
+// runOnce makes one evaluation; clean = it came back with the context's error, everything settled, nothing ticked afterwards
+func runOnce(c *tcase) (string, bool) {
 	runtime.GC()
 	var ticks int64
 	marked := make(chan struct{}, 1)
@@ -135,11 +238,30 @@ func runCase(c *tcase, out *bufio.Writer) {
 	cancel()
 	var r result
 	returned := true
+	stuck := ""
 	select {
 	case r = <-done:
 	case <-time.After(3 * time.Second):
-		returned = false
-		hangs++
+		// not back yet: is something parked where the context cannot reach it (then waiting longer is pointless), or is the
+		// machine just slow (then the bound says nothing)?
+		stuck = stuckEvidence()
+		if stuck == "" {
+			select {
+			case r = <-done:
+			case <-time.After(7 * time.Second):
+				returned = false
+				stuck = stuckEvidence()
+				hangs++
+			}
+		} else {
+			select {
+			case r = <-done:
+				stuck = "" // it did come back: what was seen was a transient
+			default:
+				returned = false
+				hangs++
+			}
+		}
 	}
 	lat := time.Since(t0)
 	tRet := atomic.LoadInt64(&ticks)
@@ -152,6 +274,12 @@ func runCase(c *tcase, out *bufio.Writer) {
 			break
 		}
 		time.Sleep(50 * time.Microsecond)
+	}
+	if !settled && returned {
+		stuck = stuckEvidence()
+		if runtime.NumGoroutine() <= g0 {
+			settled, stuck = true, ""
+		}
 	}
 	tB := atomic.LoadInt64(&ticks)
 	time.Sleep(15 * time.Millisecond)
@@ -171,7 +299,11 @@ func runCase(c *tcase, out *bufio.Writer) {
 	if note != "" {
 		ec += " " + note
 	}
-	fmt.Fprintf(out, "%s\t%v\t%d\t%s\t%s\t%d\t%d\t%d\t%d\t%d\t%v\n", c.ID, returned, lat.Microseconds(), ec, val, tRet, tB, tC, g0, gA, settled)
+	if stuck == "" {
+		stuck = "-"
+	}
+	clean := returned && settled && tB == tC && (ec == "ctx" || strings.Contains(ec, "EARLYDONE") || strings.Contains(ec, "NOMARK"))
+	return fmt.Sprintf("%s\t%v\t%d\t%s\t%s\t%d\t%d\t%d\t%d\t%d\t%v\t%s", c.ID, returned, lat.Microseconds(), ec, val, tRet, tB, tC, g0, gA, settled, stuck), clean
 }
 
 func main() {
